@@ -253,6 +253,40 @@ def gen_cases(tier, rng_seed):
             model, name = {"ucase": (m_ucase, "UCASE$"), "lcase": (m_lcase, "LCASE$"), "ltrim": (m_ltrim, "LTRIM$"), "rtrim": (m_rtrim, "RTRIM$")}[fam]
             exp = model(s); ex = "%s(%s)" % (name, e1); p = p1
         cases.append(mk(fam, p, ex, exp, True))
+    # strings with characters above 127 (one character each, two bytes inside the interpreter): positions and counts are
+    # in characters; UCASE$ / LCASE$ are left out (whether an accented letter is a letter is not fixed by the statement)
+    high = ["a", "b", "Z", " ", "1", "\u00e9", "\u00c8", "\u00ff", "\u00f1", "\u00a0"]
+    for _ in range(700 if tier == "quick" else 30000):
+        s = "".join(rng.choice(high) for _ in range(rng.randrange(0, 12)))
+        fam = rng.choice(["left", "right", "mid2", "mid3", "instr3", "ltrim", "rtrim", "len"])
+        n = rng.randrange(-1, len(s) + 3)
+        m = rng.randrange(-1, len(s) + 3)
+        f1, f2 = form(), form()
+        p1, e1 = s_forms(s, rng, f1)
+        p2, e2 = n_forms(n, rng, f2)
+        if fam == "left":
+            exp = m_left(s, n); ex = "LEFT$(%s, %s)" % (e1, e2); p = p1 + p2
+        elif fam == "right":
+            exp = m_right(s, n); ex = "RIGHT$(%s, %s)" % (e1, e2); p = p1 + p2
+        elif fam == "mid2":
+            exp = m_mid(s, n); ex = "MID$(%s, %s)" % (e1, e2); p = p1 + p2
+        elif fam == "mid3":
+            exp = m_mid(s, n, m); ex = "MID$(%s, %s, %d)" % (e1, e2, m); p = p1 + p2
+        elif fam == "instr3":
+            if s and rng.random() < 0.7:
+                a = rng.randrange(len(s)); t = s[a:a + rng.randrange(1, 4)]
+            else:
+                t = "".join(rng.choice(high) for _ in range(rng.randrange(1, 3)))
+            exp = m_instr(n, s, t); ex = "INSTR(%s, %s, %s)" % (e2, e1, lit_str(t)); p = p1 + p2
+        elif fam == "len":
+            t = "".join(rng.choice(high) for _ in range(rng.randrange(0, 6)))
+            exp = ("n", len(s) + len(t)); ex = "LEN(%s + %s)" % (e1, lit_str(t)); p = p1
+        else:
+            model, name = {"ltrim": (m_ltrim, "LTRIM$"), "rtrim": (m_rtrim, "RTRIM$")}[fam]
+            exp = model(s); ex = "%s(%s)" % (name, e1); p = p1
+        c = mk(fam, p, ex, exp, True)
+        c["f"] = "high_" + fam
+        cases.append(c)
     return cases
 
 
@@ -267,7 +301,8 @@ def judge(case, res):
             if not (line.startswith("<") and line.endswith(">")):
                 return ("bad_output", "output %r" % line)
             got = line[1:-1]
-            if got != exp[1]:
+            # the worker reports the output one character per byte
+            if got != exp[1].encode("utf-8").decode("latin-1"):
                 return ("wrong_value", "expected %r got %r" % (exp[1], got))
             return None
         v = parse_num_token(line)
